@@ -138,6 +138,9 @@ fn main() {
             }
         }
     }
+    for l in illtyped_fixed() {
+        cases.push(Case { label: format!("variant/{}", l.label), prog: l.prog, wit: l.wit, mbl: Some(8) });
+    }
     // every malformed constant, published
     for (i, c) in malformed_constants().into_iter().enumerate() {
         let mut prog = vec![ins(midnight_zkir::Operation::Load(midnight_zkir::IrType::JubjubPoint), &[], &["q"])];
@@ -158,6 +161,9 @@ fn main() {
             }
         }
         cases.push(Case { label, prog: g.prog, wit: g.wit, mbl });
+    }
+    if let Ok(only) = std::env::var("C18_ONLY") {
+        cases.retain(|c| c.label.contains(&only));
     }
     rep.set("workload", json!({ "leaves": n_leaves, "random_programs": n_random, "cases": cases.len() }));
 
@@ -197,7 +203,16 @@ fn main() {
             let key = format!("{}|{}", f.class, case.prog.get(at).map(|i| op_name(&i.operation)).unwrap_or("-"));
             let n = per_class.entry(key.clone()).or_insert(0);
             *n += 1;
-            if *n <= 2 {
+            // round-trip findings do not depend on the program; panics with the same site, message
+            // and blamed operation are minimised a few times; every other finding always is
+            let limit = if f.class.contains("read_relation") || f.class.contains("roundtrip") {
+                2
+            } else if f.kind == "panic" {
+                6
+            } else {
+                300
+            };
+            if *n <= limit {
                 todo.push((i, f.clone()));
             } else {
                 rep.count(&format!("finding_not_minimised_dup[{}]", f.class.chars().take(90).collect::<String>()));
